@@ -64,8 +64,8 @@ class C03(Prop):
         "afa_rewrite_same_text", "afa_rewrite_same_digital",
         "phylip_strtoi32_natDec", "phylips_roundtrip_text", "phylips_roundtrip_digital", "phylips_roundtrip", "phylip_roundtrip_text", "phylip_roundtrip_digital",
         "phylip_roundtrip", "phylips_write_accepted", "phylip_write_accepted", "phylip_rewrite_same_text", "phylip_rewrite_same_digital",
-        "phylip_preserves_names_rows", "phylip_write_deterministic")] + [
-        "EaselModel.Msafile.afaRead_write", "EaselModel.Msafile.splitLines_join", "EaselModel.Msafile.afaDigitalWritable_writable"] + [
+        "phylip_preserves_names_rows", "phylip_write_deterministic") + ('stockholm_write_deterministic', 'stoDigSymOk_of', 'pfam_roundtrip_plain_text', 'pfam_roundtrip_plain_digital', 'stockholm_roundtrip_plain_text', 'stockholm_roundtrip_plain_digital', 'stockholm_roundtrip_plain', 'stockholm_write_accepted', 'stockholm_preserves_names_rows', 'exSto_plain', 'exSto_writable', 'exStoDna_writable', 'exSto201_writable')] + [
+        "EaselModel.Msafile.afaRead_write", "EaselModel.Msafile.stoRead_write", "EaselModel.Msafile.splitLines_join", "EaselModel.Msafile.afaDigitalWritable_writable"] + [
         "EaselModel.Msafile." + t for t in ("stockholmWrite_eq", "stockholmWrite_magic", "blockStarts_length", "blockStarts_lt", "stockholm_blocks", "pfam_blocks",
                                             "strtokLF_tokens", "hasDupNames_iff", "phylipWrite_header", "phylipInterleaved_empty", "phylip_blocks", "phyRowLine_first",
                                             "padRight_length", "padTrunc_length", "consensusLine_length", "textConsensusLine_chars", "digitalConsChar_range",
@@ -74,7 +74,8 @@ class C03(Prop):
     claimed = True
     technique = ("Lean 4 proof (writers as functions Msa -> Bytes composed with the C01 reader models) + exact differential correspondence of written bytes "
                  "and re-read alignments with the ASan/UBSan/LSan-built library + round-trip monitors on all ten formats")
-    level_text = ("PARTIAL. Theorems (alignments of any size): for aligned FASTA, read(write m) = ok(project m) with nothing left unread, in text mode and in digital "
+    level_text = ("PARTIAL. Theorems (alignments of any size): for aligned FASTA, PHYLIP (sequential and interleaved; names come back cut to 10 characters) and - for alignments "
+                  "that carry names and rows only - Pfam and multi-block Stockholm, read(write m) = ok(project m) with nothing left unread, in text mode and in digital "
                   "mode with the amino/DNA/RNA alphabets (tables regenerated from the C code each run), where `Writable` is an explicit decidable-style list of what AFA "
                   "can carry (names without blank/tab/NUL, descriptions not starting with a blank, residues graphic and not '>', >=1 sequence and column) and `project` "
                   "keeps names, rows and descriptions exactly; the output is a function of the alignment, is accepted by the reader, the next read is EOF and the "
@@ -82,7 +83,10 @@ class C03(Prop):
                   "ALL ten formats x text/amino/DNA/RNA are additionally exercised on the real ASan/UBSan/LSan-built library: write -> read (declared and "
                   "autodetected) -> field-by-field comparison under each format's documented conventions (Stockholm/Pfam: every field; PHYLIP: 10-character names; "
                   "A2M/PSI-BLAST: case and gap conventions, pyrrolysine written as X) -> re-write and byte comparison.")
-    level_note = ("Stockholm/Pfam and the other seven formats are covered by the round-trip monitors only (support, not proof); autodetection likewise. "
+    level_note = ("Lean models of ALL ten writers (incl. stockholm_write with margins, wrapping, unique-name forcing and exact printf %.2f/%.1f) and ten readers are compared "
+                  "byte for byte / field for field with the library on every case. Round-trip THEOREMS are still missing for Stockholm/Pfam WITH annotation (weights and "
+                  "cut-offs cannot be stated: the reader model does not carry their numeric value), A2M, Clustal, PSI-BLAST, SELEX: there the round trip is checked by the "
+                  "executable models + monitors only (support, not proof); autodetection likewise. "
                   "printf/strtod of 2-/1-decimal weights and cut-offs is trusted. Known finding C03:stockholm:first-mention-order: the Stockholm reader numbers sequences and "
                   "#=GR tags in order of first mention (#=GS lines included), so partial per-sequence annotation changes sequence order on re-reading; the generator keeps the "
                   "first #=GS kind total and gives the first sequence every #=GR tag. PHYLIP autodetection of single-sequence or single-block output is documented as ambiguous.")
@@ -363,8 +367,12 @@ class C03(Prop):
         return None
 
     def extra_evidence(self, ctx):
-        return {"modelled_formats": MODELLED, "writer_only_formats": WRITER_ONLY, "unmodelled_formats": [f for f in ALL_FORMATS if f not in MODELLED and f not in WRITER_ONLY],
-                "claim": "partial: theorems cover the modelled formats; the other formats are covered by the round-trip monitors on the real library (support, not proof)",
+        return {"modelled_formats": MODELLED,
+                "roundtrip_theorem_formats": ["afa", "phylip", "phylips", "pfam (names + rows)", "stockholm (names + rows, multi-block)"],
+                "unmodelled_formats": ["round-trip THEOREM missing (executable writer + reader models compared with the library, monitors only): "
+                                       "stockholm/pfam with annotation, a2m, clustal, clustallike, psiblast, selex", "auto (format autodetection)"],
+                "claim": "partial: read(write m) = ok(project m) is proved for the roundtrip_theorem_formats; every format's writer and reader model is tied to the library "
+                         "byte for byte on each run; the remaining round trips and autodetection are covered by monitors on the real library (support, not proof)",
                 "input_distribution": ctx.stats.get("generator", {})}
 
 
